@@ -422,8 +422,21 @@ func (ms *Modules) Process() []error {
 
 	// Go through any modules that have remaining augments and collect
 	// the errors.
+	applied := 0
 	for _, m := range mods {
-		ToEntry(m).Augment(true)
+		p, _ := ToEntry(m).Augment(true)
+		applied += p
+	}
+	if applied > 0 {
+		// An augment whose target is the implied case of a choice only
+		// becomes applicable once that case exists; the nodes it adds need
+		// their implied cases too.
+		for _, m := range ms.Modules {
+			ToEntry(m).FixChoice()
+		}
+		for _, m := range ms.SubModules {
+			ToEntry(m).FixChoice()
+		}
 	}
 	// Merging an augment records the errors of its body, and any name
 	// collision, on the target, which may belong to any module.
